@@ -5,6 +5,7 @@ import (
 	"go/ast"
 	"go/token"
 	"go/types"
+	"golang.org/x/tools/go/ssa"
 	"sort"
 	"strings"
 
@@ -471,8 +472,16 @@ func (c *Ctx) ruleC11Close() {
 	r := c.R
 	r.Rule("C11-CLOSE", "closeLastExplicitContext stops at the first explicit ancestor and errors at nil; processContextEnd finalises the pending directive first; processEOF reports an open explicit context", 4)
 	f := c.fn("core", "JApiCore.closeLastExplicitContext")
+	// the walk may have been written into the handler of ")" itself: then that handler is evaluated, with the
+	// finalisation of the pending directive kept opaque (it places a directive and moves the cursor by its own rules)
+	inlined := false
+	pcdFn := c.P.LookupFunc("core", "JApiCore.processCurrentDirective")
 	if f == nil {
-		r.Undecided("C11-CLOSE", "anchor", "closeLastExplicitContext not found", "")
+		f = c.fn("core", "JApiCore.processContextEnd")
+		inlined = true
+	}
+	if f == nil {
+		r.Undecided("C11-CLOSE", "anchor", "neither closeLastExplicitContext nor processContextEnd found", "")
 		return
 	}
 	where := c.pos(f.Decl.Pos())
@@ -483,11 +492,20 @@ func (c *Ctx) ruleC11Close() {
 	// ifs, loop condition, local alias) does not matter.
 	cur := c.coreField("currentContextDirective")
 	sf := c.P.SSAFunc(f.Obj)
+	finalFirstC11 := true
 	if cur == nil || sf == nil {
 		r.Undecided("C11-CLOSE", "anchor", "context cursor field or SSA form not found", where)
 	} else {
 		loc := "core." + cur.Name()
 		ev := c.newEval()
+		finalFirst := true
+		_ = finalFirst
+		if inlined && pcdFn != nil {
+			pcdSSA := c.P.SSAFunc(pcdFn)
+			inner := ev.Follow
+			ev.Follow = func(fn *ssa.Function) bool { return fn != pcdSSA && inner(fn) }
+			ev.WantCall = func(fn *ssa.Function) bool { return fn == pcdSSA }
+		}
 		outs := ev.Run(sf, []ssaeval.Value{ssaeval.Obj("core")})
 		bad, nNil, nErr, nCut := "", 0, 0, 0
 		for _, o := range outs {
@@ -495,22 +513,48 @@ func (c *Ctx) ruleC11Close() {
 				bad = "a path panics"
 				continue
 			}
-			cursor := "L(" + loc + ")@0"
+			if inlined {
+				// the error of the finalisation handed on before anything is closed: not a path of the walk
+				stores, callAt, firstStore := 0, -1, -1
+				for i, e := range o.Events {
+					if e.Kind == "store" && e.Loc == "core."+cur.Name() {
+						stores++
+						if firstStore < 0 {
+							firstStore = i
+						}
+					}
+					if e.Kind == "call" && callAt < 0 {
+						callAt = i
+					}
+				}
+				if firstStore >= 0 && (callAt < 0 || callAt > firstStore) {
+					finalFirst = false
+					finalFirstC11 = false
+				}
+				if stores == 0 && len(o.Rets) == 1 {
+					if _, known := o.Rets[0].IsNilKnown(); !known && strings.Contains(o.Rets[0].Term(), "processCurrentDirective") {
+						continue
+					}
+				}
+			}
+			// terms are compared without their epochs (an opaque call before the walk shifts them all; the nesting of the
+			// loads still tells one cursor value from the next)
+			cursor := "L(" + loc + ")"
 			var left []string // cursors that were left, in order
 			explicit := map[string]string{}
 			nilFound := false
 			for _, e := range o.Events {
 				switch {
 				case e.Kind == "store" && e.Loc == loc:
-					if !strings.HasPrefix(e.Args[0].Term(), "L("+cursor+".Parent)@") {
+					if stripEpochs(e.Args[0].Term()) != "L("+cursor+".Parent)" {
 						bad = "the context cursor is set to " + e.Args[0].Term() + ", which is not the Parent of the context it leaves"
 					}
 					left = append(left, cursor)
-					cursor = e.Args[0].Term()
+					cursor = stripEpochs(e.Args[0].Term())
 				case e.Kind == "cond":
-					t := e.Args[0].Term()
-					if strings.HasPrefix(t, "L(") && strings.Contains(t, ".HasExplicitContext)@") {
-						subj := strings.TrimPrefix(t[:strings.Index(t, ".HasExplicitContext)@")], "L(")
+					t := stripEpochs(e.Args[0].Term())
+					if strings.HasPrefix(t, "L(") && strings.HasSuffix(t, ".HasExplicitContext)") {
+						subj := strings.TrimPrefix(strings.TrimSuffix(t, ".HasExplicitContext)"), "L(")
 						explicit[subj] = e.Fn
 					}
 					if (t == "==("+cursor+",nil)" && e.Fn == "true") || (t == "!=("+cursor+",nil)" && e.Fn == "false") {
@@ -570,7 +614,13 @@ func (c *Ctx) ruleC11Close() {
 		}
 	}
 	// processContextEnd
-	if g := c.fn("core", "JApiCore.processContextEnd"); g != nil {
+	if inlined {
+		if finalFirstC11 {
+			r.Ok("C11-CLOSE", "finalise before close", "on every path of the handler of ')' that moves the cursor, processCurrentDirective was called first", where)
+		} else {
+			r.Bad("C11-CLOSE", "finalise before close", "the handler of ')' moves the context cursor before the pending directive is finalised", where)
+		}
+	} else if g := c.fn("core", "JApiCore.processContextEnd"); g != nil {
 		pcd := c.P.LookupFunc("core", "JApiCore.processCurrentDirective")
 		a := callsIn(g.Pkg, g.Decl.Body, pcd)
 		b := callsIn(g.Pkg, g.Decl.Body, f.Obj)
